@@ -238,3 +238,61 @@ func (b *BufIO) ReceiveLabel(v *ot.Label, d *ot.LabelData) error {
 	v.SetData(d)
 	return nil
 }
+
+// FaultIO fails the FailAt-th receive call (1-based, counting ReceiveByte,
+// ReceiveUint32, ReceiveData and ReceiveLabel together) and every later one:
+// a transport that breaks at a chosen point of a protocol. FailAt 0 never
+// fails; Calls counts receive calls (to size FailAt from a clean run).
+type FaultIO struct {
+	ot.IO
+	FailAt int
+	Calls  int
+	fired  bool
+}
+
+// ErrInjectedReceive is what a FaultIO returns at and after its failure point.
+var ErrInjectedReceive = fmt.Errorf("otx: injected receive failure")
+
+// Fired tells whether the failure point was reached.
+func (f *FaultIO) Fired() bool { return f.fired }
+
+func (f *FaultIO) hit() bool {
+	f.Calls++
+	if f.FailAt > 0 && f.Calls >= f.FailAt {
+		f.fired = true
+		return true
+	}
+	return false
+}
+
+// ReceiveByte implements ot.IO.
+func (f *FaultIO) ReceiveByte() (byte, error) {
+	if f.hit() {
+		return 0, ErrInjectedReceive
+	}
+	return f.IO.ReceiveByte()
+}
+
+// ReceiveUint32 implements ot.IO.
+func (f *FaultIO) ReceiveUint32() (int, error) {
+	if f.hit() {
+		return 0, ErrInjectedReceive
+	}
+	return f.IO.ReceiveUint32()
+}
+
+// ReceiveData implements ot.IO.
+func (f *FaultIO) ReceiveData() ([]byte, error) {
+	if f.hit() {
+		return nil, ErrInjectedReceive
+	}
+	return f.IO.ReceiveData()
+}
+
+// ReceiveLabel implements ot.IO.
+func (f *FaultIO) ReceiveLabel(val *ot.Label, data *ot.LabelData) error {
+	if f.hit() {
+		return ErrInjectedReceive
+	}
+	return f.IO.ReceiveLabel(val, data)
+}
